@@ -14,6 +14,10 @@ def genFacts : Facts :=
     getitemViaSteps := Generated.pathGetitemViaSteps
     lenExpr := Generated.pathLenExpr
     valuesExpr := Generated.pathValuesExpr
-    itemsExpr := Generated.pathItemsExpr }
+    itemsExpr := Generated.pathItemsExpr
+    limitNames := Generated.reprlibLimitNames
+    limitTable := Generated.bbreprLimits
+    fillvalue := Generated.bbreprFillvalue
+    reprIsReprlib := Generated.bbreprIsReprlib }
 
 end Glom.C18
